@@ -91,6 +91,7 @@ def _accessor(geom, tag, valuation, rec):
     t = geom["type"]
     a = Obj(None, {"tag": tag, "type": t, "items": labels, "value": _value_for(t, labels, tag, valuation), "pos": geom.get("pos"), "length": geom.get("length"),
                    "read_write": geom.get("read_write")}, name=f"acc<{tag}>")
+    a.published = tuple(labels) if labels is not None else None      # the table's list, kept aside: what the construction may not edit
     a.attrs["watch"] = Native(lambda args, kw: None, "watch")
     a.attrs["unwatch"] = Native(lambda args, kw: None, "unwatch")
     a.attrs["unwatch_all"] = Native(lambda args, kw: None, "unwatch_all")
@@ -291,7 +292,7 @@ def inventories(repo, T, valuation="mixed"):
     return res
 
 
-def out_of_list_states(repo, T, valuation="mixed", unknown=True):
+def out_of_list_states(repo, T, valuation="mixed", unknown=True, subscribe=False):
     """For the richest shipped (config, log) pair of every platform and both facades: every automation device the facade
     built is read again with each of its Enum items holding a byte OUTSIDE its label list (the accessor reads 'Unknown'):
     every read-only member (properties, __str__, __repr__) of the device is evaluated.
@@ -340,6 +341,27 @@ def out_of_list_states(repo, T, valuation="mixed", unknown=True):
                         bad.append((key, nm, f"raises {e.what}"))
                     except Undecided:
                         pass      # depends on something the model does not fix: not decided here
+                if subscribe:
+                    # a client watches the device with a plain function (not a bound method), then renders it
+                    import ast as _ast
+                    fn = it.eval(_ast.parse("lambda *args, **kwargs: None", mode="eval").body, {"__mod__": d.cls.mod, "__class__": None})
+                    try:
+                        it.apply(it.getattr(d, "watch"), [fn], {})
+                        for nm in ("__repr__", "__str__"):
+                            f = repo.method(d.cls.short, nm, required=False)
+                            if f is None:
+                                continue
+                            n += 1
+                            try:
+                                it.steps = 0
+                                it.call(f, d, [])
+                            except PyRaise as e:
+                                bad.append((key, f"{nm} with a plain-function observer", f"raises {e.what}"))
+                            except Undecided:
+                                pass
+                        it.apply(it.getattr(d, "unwatch"), [fn], {})
+                    except (PyRaise, Undecided):
+                        pass
             finally:
                 for a, v in saved:
                     a.attrs["value"] = v
@@ -354,8 +376,9 @@ def out_of_list_states(repo, T, valuation="mixed", unknown=True):
 
 def labels_after_reads(repo, T, valuation="mixed"):
     """For the richest shipped (config, log) pair of every platform and both facades: the label list of every item the
-    construction looked at is noted, then every read-only member of every automation device (properties - `modes`
-    included -, __str__, __repr__) is read, as a front end does; the label lists must be what they were.
+    construction looked at is compared with the list its table published, after the facade has been built AND every
+    read-only member of every automation device (properties - `modes` included -, __str__, __repr__) has been read, as a
+    front end does; the label lists must be what the table says.
     -> {(platform, cfg, log, facade): (build result, [(item, before, after)], items watched)}"""
     best = {}
     for _p, cfg, log in T.combos():
@@ -370,7 +393,8 @@ def labels_after_reads(repo, T, valuation="mixed"):
         for k in list(dict.keys(accs)):
             v = dict.__getitem__(accs, k)
             if isinstance(v, Obj) and isinstance(v.attrs.get("items"), list):
-                watched[k] = (v, tuple(v.attrs["items"]))
+                # compared with the list the table published (an edit made while the facade was being built counts too)
+                watched[k] = (v, getattr(v, "published", None) or tuple(v.attrs["items"]))
         for d in list(it.getattr(fac, "all_automation_devices")):
             if not (isinstance(d, Obj) and d.cls is not None):
                 continue
